@@ -11,7 +11,7 @@ RULE = ("real Display objects over the real transports (SpiInterface with record
         "with the k-th low-level operation failing — k chosen after a fault-free probe run has counted the operations of that init "
         "(quick: first, last, a few in between; thorough: every k for every model on SPI, a sample on the parallel buses); (b) programs on small "
         "panels in which one or more calls (set_pixel(s), draw_iter, fill_*, clear, set_orientation, scroll, tearing, sleep, wake) fail at their "
-        "k-th operation, followed by a fault-free clear(c) whose pin-level log is decoded by the reference controller: the whole panel window "
+        "k-th operation — incl. pixel-heavy calls over SPI buffers of one or two pixels and the parallel buses with the fault position drawn from a probe run's operation count (first, last, last-1, random; thorough: every position) — followed by a fault-free clear(c) whose pin-level log is decoded by the reference controller: the whole panel window "
         "must show c and nothing outside it may be written; non-trivial = the injected fault actually hit an operation")
 TRUSTED = ["Corr/L2.v (composition of the driver model with the transport models; pin-level decoder)", "Corr/C12.v oracle"]
 ASSUMPTIONS = ["a failing operation returns Err; its physical effect on the panel is taken as 'not received' for the decoded picture (electrical behaviour of a "
@@ -78,6 +78,49 @@ def gen(rng, tier, info):
         q["init_fail"] = n + 3
         q["tags"] = ["init-fault-beyond"]
         cases.append(vlib.pcase(q))
+    # ---- (b0) every (thorough) / several (quick) fault positions of pixel-heavy calls over transports that need many
+    # low-level operations per call (SPI buffers of one or two pixels; parallel buses), then a clear
+    from props import c10
+    tprobes = []
+    for _ in range(24 if tier == "quick" else 200):
+        pc, m, lw, lh, cmax = drawgen.config(rng, info, ifaces=(3, 3, 4, 5), models=SMALL)
+        if pc["iface"] == 3:
+            bpp = 2 if m["color"] == "Rgb565" else 3
+            pc["ifparam"] = rng.choice([bpp, bpp + 1, 2 * bpp, 2 * bpp + 1])
+        kind = rng.below(5)
+        if kind == 0:
+            x, y, w, h = drawgen.inbounds_rect(rng, lw, lh, 12)
+            op = ("sps", x, y, x + w - 1, y + h - 1, [drawgen.color(rng, cmax) for _ in range(w * h)])
+        elif kind == 1:
+            x, y, w, h = drawgen.inbounds_rect(rng, lw, lh, 12)
+            op = ("fc", (x, y, w, h), [(i * 7 + 1) % (cmax + 1) for i in range(w * h)])
+        elif kind == 2:
+            op = ("di", drawgen.stream_inbounds(rng, lw, lh, cmax, rng.range(3, 12)))
+        elif kind == 3:
+            x, y, w, h = drawgen.inbounds_rect(rng, lw, lh, 40)
+            op = ("fs", (x, y, w, h), drawgen.color(rng, cmax))
+        else:
+            op = ("cl", drawgen.color(rng, cmax))
+        pc["ops"] = [(-1, op), (-1, ("cl", drawgen.color(rng, cmax)))]
+        pc["tags"] = ["call-probe"]
+        pc["nontrivial"] = False
+        tprobes.append(pc)
+    tcases = [vlib.pcase(pc) for pc in tprobes]
+    vlib.run_cases_on_harness(tcases)
+    for pc, c in zip(tprobes, tcases):
+        parts = c10.split_ops(c.impl or "") or []
+        if not parts:
+            continue
+        nops = len(re.findall(r"\b(ODc|OSpi|OPin|OWr|ORst)\b", parts[0]))
+        if nops == 0:
+            continue
+        ks = list(range(nops)) if tier == "thorough" and nops <= 400 else sorted(set([0, nops - 1, max(0, nops - 2)] + [rng.below(nops) for _ in range(5)]))
+        for k in ks:
+            q = dict(pc)
+            q["ops"] = [(k, pc["ops"][0][1]), pc["ops"][1]]
+            q["tags"] = ["call-fault", "iface%d" % pc["iface"], "op:" + pc["ops"][0][1][0], "k=last" if k == nops - 1 else "k=first" if k == 0 else "k=mid"]
+            q["nontrivial"] = True
+            cases.append(vlib.pcase(q))
     # ---- (b) faults in Display calls, then a clear
     n_prog = 260 if tier == "quick" else 2600
     for _ in range(n_prog):
